@@ -346,9 +346,18 @@ func prepareCorrectionOptions(o *CorrectionOptions, opts ...schema.Option) error
 		row(o)
 	}
 
-	// Copy over the stamps from the previous header
+	// Copy over the stamps from the previous header. The stamp objects are
+	// copied so that nothing done with the options or the new document (raw
+	// JSON options are unmarshalled into o.Stamps below) can reach the
+	// original envelope's header.
 	if o.Head != nil && len(o.Head.Stamps) > 0 {
-		o.Stamps = append(o.Stamps, o.Head.Stamps...)
+		for _, s := range o.Head.Stamps {
+			if s != nil {
+				c := *s
+				s = &c
+			}
+			o.Stamps = append(o.Stamps, s)
+		}
 	}
 
 	// If we have a raw json object, this will override any of the other options
